@@ -53,8 +53,10 @@ pub proof fn lemma_trim_len(r: Seq<char>, s: Seq<char>)
     assert(trim_at(r, s, i, j));
 }
 
+// (trim is a function of the text: `trimmed` names its result)
+pub uninterp spec fn trimmed(s: Seq<char>) -> Seq<char>;
 pub assume_specification<'a>[ str::trim ](s: &'a str) -> (r: &'a str)
-    ensures is_trim_of(r@, s@), r@.len() <= s@.len();
+    ensures is_trim_of(r@, s@), r@.len() <= s@.len(), r@ == trimmed(s@);
 
 // TRUSTED(T3): char::is_ascii_digit
 pub assume_specification[ char::is_ascii_digit ](c: &char) -> (r: bool)
